@@ -162,6 +162,9 @@ Definition RInv (s : state) : Prop :=
   | RcRunning => False
   end.
 
+(* the configuration of the code as it is (both fixes in) *)
+Definition fixed (c : config) : Prop := persist_first c = true /\ clean_orphans c = true.
+
 (* schedule hypothesis: at most one snapshot goroutine is between "snap file written" and "marker written" *)
 Definition single_window (s : state) : Prop :=
   forall i1 i2, sn_lookup i1 (sns s) = Some SnFile -> sn_lookup i2 (sns s) = Some SnFile -> i1 = i2.
